@@ -192,6 +192,7 @@ class Executor:
             extra_env=None, inline=True) -> List[Path]:
         self.spec = spec
         self.inline = inline
+        self.undecided = {}        # factory parameter -> {'truth'|'bool'|'none'}: tests the configuration did not decide
         st = St.__new__(St)
         env = {}
         sc = spec.module.scopes[spec.fn]
@@ -1173,6 +1174,7 @@ class Executor:
                 v = st.config.get(t[1])
                 if v is not None:
                     return v in ("True", "Obj")
+                self.undecided.setdefault(t[1], set()).add("truth")
                 return None
             return True
         if h in ("tuple", "list") and len(t) == 1:
@@ -1204,6 +1206,9 @@ class Executor:
                     return hit[0] if op == "In" else (not hit[0])
             # configuration tests
             for x, y in ((a, b), (b, a)):
+                if x[0] == "param" and x[1] not in st.config and y[0] == "const" and op in ("Is", "IsNot", "Eq", "NotEq") \
+                        and (y[1] is None or y[1] is True or y[1] is False):
+                    self.undecided.setdefault(x[1], set()).add("none" if y[1] is None else "bool")
                 if x[0] == "param" and x[1] in st.config and y[0] == "const" and op in ("Is", "IsNot", "Eq", "NotEq"):
                     v = st.config[x[1]]
                     cv = y[1]
@@ -1410,6 +1415,9 @@ class Executor:
             if ft[1] == "getattr" and len(args) == 2 and not kwargs and args[1][0] == "const" and isinstance(args[1][1], str):
                 yield st, self._getattr(args[0], args[1][1], st)
                 return
+            if ft[1] == "divmod" and len(args) == 2 and not kwargs:
+                yield st, ("tuple", ("binop", "FloorDiv", args[0], args[1]), ("binop", "Mod", args[0], args[1]))
+                return
             if ft[1] in PURE_BUILTINS:
                 if ft[1] == "len":
                     yield st, ("call", ft, tuple(allargs), ("epoch", st.epoch))
@@ -1521,8 +1529,11 @@ class Executor:
 
 # ----------------------------------------------------------------------
 def _literal_term(node):
-    if isinstance(node, ast.Constant) and not isinstance(node.value, (bytes,)) or (isinstance(node, ast.Constant)):
+    if isinstance(node, ast.Constant):
         return const(node.value)
+    if isinstance(node, ast.UnaryOp) and isinstance(node.op, ast.USub) and isinstance(node.operand, ast.Constant) \
+            and isinstance(node.operand.value, (int, float)) and not isinstance(node.operand.value, bool):
+        return const(-node.operand.value)
     if isinstance(node, ast.Tuple) and all(isinstance(e, ast.Constant) for e in node.elts):
         return ("tuple",) + tuple(const(e.value) for e in node.elts)
     return None
